@@ -71,7 +71,8 @@ finally:
     shutil.rmtree(env["HOME"], ignore_errors=True)
 out = f"/verif/seeded/{pid}-{k}"
 os.makedirs(out, exist_ok=True)
-shutil.copy(f"{src}/patch.diff", out); shutil.copy(f"{src}/demo.py", out)
+if os.path.abspath(src) != os.path.abspath(out):
+    shutil.copy(f"{src}/patch.diff", out); shutil.copy(f"{src}/demo.py", out)
 prev = f"{out}/meta.json"
 meta = json.load(open(prev)) if os.path.exists(prev) else (json.load(open(f"{src}/meta.json")) if os.path.exists(f"{src}/meta.json") else {})
 res["base_commit"] = a.base
